@@ -98,6 +98,13 @@ def run(tier):
         # binding: parse tree before / after simplify, pull sequence of both compilations
         engine.replay(vd, vecs, bdir, wd, PID, check_illformed=False)
         base += [v for v in vecs if v["kind"] == "stream"]
+    # the patterns tree::simplify rewrites, inside every kind of sub-expression (a CAT that stands alone there)
+    rsim = engine.model_check(vd, "simp", 3)
+    if rsim.violated:
+        vd.observe("model:simp:" + rsim.violated, {"output": rsim.out[-4000:]})
+    vsim, st = engine.generate("simp", 4, 16, wd, nosimp=True)
+    engine.replay(vd, vsim, bdir, wd, PID, check_illformed=False)
+    base += [v for v in vsim if v["kind"] == "stream"][::3]
     if tier == "quick":
         vecs3, st = engine.generate("subif", 3, 16, wd, light=True)
         s3 = [v for v in vecs3 if v["kind"] == "stream"]
@@ -175,7 +182,8 @@ def run(tier):
                      "sugar rewrite; results must be identical (sequence; multiset where the rewrite changes branch order); "
                      "non-trivial = variant of a program with >= 1 result; (3) tla/Tree.tla transcribes the grammar actions and "
                      "tree::simplify, tla/EngineOps.tla builds the op graph from the tree: Engine.tla is model-checked with and "
-                     "without the simplification (same meaning, Simplify is a fixed point free of its patterns), and the real parse "
+                     "without the simplification (same meaning, Simplify is a fixed point free of its patterns; families altor, subif, fmt and "
+                     "`simp': empty expressions, E?, %s and ALT/OR inside captures and sub-expressions up to weight 4), and the real parse "
                      "tree before and after simplify and the pull sequences of both compilations are compared with the model; (4) tla/Lexer.tla: "
                      "the bracket-counting state machine of the lexer for %( ... %) accepts exactly the documented language (all token "
                      "sequences over \" %( %) ( ) 1 up to length 6, over \" %( %) ) up to length 9), every sequence of the language and a "
